@@ -3,7 +3,7 @@ CONSTANTS
   TypeSeq <- T1s
   Owners <- O2
   SubOpts <- OptWeak3
-  AutoOpts <- AutoTwo
+  AutoOpts <- AutoThree
   RVs = {"none"}
   UnsubModes = {"handler", "pair"}
   BulkModes = {}
